@@ -136,8 +136,8 @@ structure TablesOk (T : Tables) : Prop where
 
 variable {κ : Type} [DecidableEq κ]
 
-/-- `verifyRedirect` with the octet string in canonical form -/
-def verifyNF (T : Tables) (C : Codec (Sig κ)) (own : κ) (msg : Dict) (cert sigkey : Option (Pub κ)) : VOut :=
+/-- `verifyWith` with the octet string in canonical form -/
+def verifyNF (T : Tables) (C : Codec (Sig κ)) (kr : KeyRes κ) (msg : Dict) : VOut :=
   match msg.get kSigAlg with
   | none => .error .keyError
   | some alg =>
@@ -150,16 +150,18 @@ def verifyNF (T : Tables) (C : Codec (Sig κ)) (own : κ) (msg : Dict) (cert sig
         match msg.get kSignature with
         | none => .error .keyError
         | some sigText =>
-          match C.b64d sigText with
-          | none => .error .b64
-          | some s =>
-            if s.verify (effKey own cert sigkey) dig (canonOctets C.enc typ v (msg.get kRelayState) alg)
-            then .verified else .notVerified
+          match kr with
+          | .raises => .error .cert
+          | .under pk =>
+            match C.b64d sigText with
+            | none => .error .b64
+            | some s =>
+              if verifyUnder pk dig (canonOctets C.enc typ v (msg.get kRelayState) alg) s
+              then .verified else .notVerified
 
-theorem verifyRedirect_eq_NF {T : Tables} (hT : TablesOk T) (C : Codec (Sig κ)) (own : κ) (msg : Dict)
-    (cert sigkey : Option (Pub κ)) :
-    verifyRedirect T C own msg cert sigkey = verifyNF T C own msg cert sigkey := by
-  unfold verifyRedirect verifyNF view Dict.has
+theorem verifyWith_eq_NF {T : Tables} (hT : TablesOk T) (C : Codec (Sig κ)) (kr : KeyRes κ) (msg : Dict) :
+    verifyWith T C kr msg = verifyNF T C kr msg := by
+  unfold verifyWith verifyNF view Dict.has
   cases hA : msg.get kSigAlg with
   | none => rfl
   | some alg =>
@@ -180,7 +182,11 @@ theorem verifyRedirect_eq_NF {T : Tables} (hT : TablesOk T) (C : Codec (Sig κ))
         rw [hT.reqV, stdReqOrder, signedString_std _ _ _ v alg hV' hA', hR']
         cases msg.get kSignature with
         | none => rfl
-        | some st => simp only; cases C.b64d st <;> rfl
+        | some st =>
+          simp only
+          cases kr with
+          | raises => rfl
+          | under pk => simp only; cases C.b64d st <;> rfl
       | none =>
         cases hResp : msg.get kSAMLResponse with
         | some v =>
@@ -190,9 +196,18 @@ theorem verifyRedirect_eq_NF {T : Tables} (hT : TablesOk T) (C : Codec (Sig κ))
           rw [hT.respV, stdRespOrder, signedString_std _ _ _ v alg hV' hA', hR']
           cases msg.get kSignature with
           | none => rfl
-          | some st => simp only; cases C.b64d st <;> rfl
+          | some st =>
+            simp only
+            cases kr with
+            | raises => rfl
+            | under pk => simp only; cases C.b64d st <;> rfl
         | none =>
           simp
+
+theorem verifyRedirect_eq_NF {T : Tables} (hT : TablesOk T) (C : Codec (Sig κ)) (own : Option κ) (msg : Dict)
+    (cert : Option (Cert κ)) (sigkey : Option (VKey κ)) :
+    verifyRedirect T C own msg cert sigkey = verifyNF T C (effKey own cert sigkey) msg :=
+  verifyWith_eq_NF hT C _ msg
 
 theorem Sig.verify_iff (pk : Pub κ) (d m : Str) (s : Sig κ) :
     s.verify pk d m = true ↔ ∃ k, pk = pub k ∧ s = .signed k d m := by
@@ -206,12 +221,18 @@ theorem Sig.verify_iff (pk : Pub κ) (d m : Str) (s : Sig κ) :
     · rintro ⟨k', h1, h2, h3, h4⟩
       exact ⟨⟨h2 ▸ h1, h3⟩, h4⟩
 
-theorem verifyNF_verified_iff (T : Tables) (C : Codec (Sig κ)) (own : κ) (msg : Dict)
-    (cert sigkey : Option (Pub κ)) :
-    verifyNF T C own msg cert sigkey = .verified ↔
+theorem verifyUnder_iff (pk : Option (Pub κ)) (d m : Str) (s : Sig κ) :
+    verifyUnder pk d m s = true ↔ ∃ k, pk = some (pub k) ∧ s = .signed k d m := by
+  cases pk with
+  | none => simp [verifyUnder]
+  | some p =>
+    simp only [verifyUnder, Sig.verify_iff, Option.some.injEq]
+
+theorem verifyNF_verified_iff (T : Tables) (C : Codec (Sig κ)) (kr : KeyRes κ) (msg : Dict) :
+    verifyNF T C kr msg = .verified ↔
       ∃ alg dig typ v sigText k,
         msg.get kSigAlg = some alg ∧ Dict.get T.signers alg = some dig ∧ view msg = some (typ, v) ∧
-        msg.get kSignature = some sigText ∧ effKey own cert sigkey = pub k ∧
+        msg.get kSignature = some sigText ∧ kr = .under (some (pub k)) ∧
         C.b64d sigText = some (.signed k dig (canonOctets C.enc typ v (msg.get kRelayState) alg)) := by
   constructor
   · intro h
@@ -233,25 +254,30 @@ theorem verifyNF_verified_iff (T : Tables) (C : Codec (Sig κ)) (own : κ) (msg 
           | none => rw [hS] at h; cases h
           | some st =>
             rw [hS] at h; simp only at h
-            cases hB : C.b64d st with
-            | none => rw [hB] at h; cases h
-            | some s =>
-              rw [hB] at h; simp only at h
-              split at h
-              next hv =>
-                obtain ⟨k, hk, hs⟩ := (Sig.verify_iff _ _ _ _).mp hv
-                exact ⟨alg, dig, typ, v, st, k, rfl, hD, rfl, rfl, hk, by rw [hB, hs]⟩
-              next => cases h
+            cases kr with
+            | raises => cases h
+            | under pk =>
+              simp only at h
+              cases hB : C.b64d st with
+              | none => rw [hB] at h; cases h
+              | some s =>
+                rw [hB] at h; simp only at h
+                split at h
+                next hv =>
+                  obtain ⟨k, hk, hs⟩ := (verifyUnder_iff _ _ _ _).mp hv
+                  exact ⟨alg, dig, typ, v, st, k, rfl, hD, rfl, rfl, by rw [hk], by rw [hB, hs]⟩
+                next => cases h
   · rintro ⟨alg, dig, typ, v, st, k, h1, h2, h3, h4, h5, h6⟩
     unfold verifyNF
     rw [h1]; simp only
     rw [h2]; simp only
     rw [h3]; simp only
     rw [h4]; simp only
+    rw [h5]; simp only
     rw [h6]; simp only
-    have : Sig.verify (effKey own cert sigkey) dig (canonOctets C.enc typ v (msg.get kRelayState) alg)
+    have : verifyUnder (some (pub k)) dig (canonOctets C.enc typ v (msg.get kRelayState) alg)
         (Sig.signed k dig (canonOctets C.enc typ v (msg.get kRelayState) alg)) = true :=
-      (Sig.verify_iff _ _ _ _).mpr ⟨k, h5, rfl⟩
+      (verifyUnder_iff _ _ _ _).mpr ⟨k, rfl, rfl⟩
     rw [if_pos this]
 
 /-! ### the signer, evaluated -/
@@ -497,10 +523,10 @@ theorem anyVerified_map {α : Type} (f : α → VOut) (l : List α)
         · subst h1; rw [hc] at h2; cases h2
         · exact ⟨c', h1, h2⟩
 
-theorem verifyNF_error_indep (T : Tables) (C : Codec (Sig κ)) (own : κ) (msg : Dict)
-    (cert sigkey cert' sigkey' : Option (Pub κ)) (e : VErr)
-    (h : verifyNF T C own msg cert sigkey = .error e) :
-    verifyNF T C own msg cert' sigkey' ≠ .verified := by
+theorem verifyNF_error_indep (T : Tables) (C : Codec (Sig κ)) (msg : Dict)
+    (pk pk' : Option (Pub κ)) (e : VErr)
+    (h : verifyNF T C (.under pk) msg = .error e) :
+    verifyNF T C (.under pk') msg ≠ .verified := by
   unfold verifyNF at h ⊢
   cases hA : msg.get kSigAlg with
   | none => simp
@@ -524,6 +550,23 @@ theorem verifyNF_error_indep (T : Tables) (C : Codec (Sig κ)) (own : κ) (msg :
             rw [hB] at h; simp only at h
             split at h <;> cases h
 
+omit [DecidableEq κ] in
+/-- the specification's key and the model's key question agree -/
+theorem effKey_verificationKey (own : Option κ) (cert : Option (Cert κ)) (sigkey : Option (VKey κ)) :
+    (match effKey own cert sigkey with
+     | .raises => none
+     | .under pk => pk) = verificationKey own cert sigkey := by
+  unfold effKey verificationKey
+  cases cert with
+  | some c =>
+    cases c with
+    | malformed => cases sigkey <;> rfl
+    | holds k => cases k <;> cases sigkey <;> rfl
+  | none =>
+    cases sigkey with
+    | none => rfl
+    | some k => cases k <;> rfl
+
 theorem loadsMsg_get_req (o a s : Str) (r : Option Str) : (loadsMsg o a s r).get kSAMLRequest = some o := by
   simp [loadsMsg, Dict.get]
 theorem loadsMsg_get_resp (o a s : Str) (r : Option Str) : (loadsMsg o a s r).get kSAMLResponse = none := by
@@ -536,5 +579,34 @@ theorem loadsMsg_get_relay (o a s : Str) (r : Option Str) : (loadsMsg o a s r).g
   cases r <;> simp [loadsMsg, Dict.get, kReq_ne_kRelay, kRelay_ne_kSig.symm, kRelay_ne_kSigAlg.symm]
 theorem loadsMsg_view (o a s : Str) (r : Option Str) : view (loadsMsg o a s r) = some (kSAMLRequest, o) := by
   unfold view; rw [loadsMsg_get_req]
+
+/-- "verified" needs an RSA key to verify under, a Signature, and a decodable signature that is somebody's -/
+theorem verifyWith_verified (T : Tables) (C : Codec (Sig κ)) (kr : KeyRes κ) (msg : Dict)
+    (hv : verifyWith T C kr msg = .verified) :
+    ∃ pk st k d m, kr = .under (some pk) ∧ msg.get kSignature = some st ∧ C.b64d st = some (.signed k d m) := by
+  unfold verifyWith at hv
+  split at hv
+  · cases hv
+  · split at hv
+    · cases hv
+    · simp only at hv
+      split at hv
+      · cases hv
+      · split at hv
+        · cases hv
+        next st hst =>
+          cases kr with
+          | raises => cases hv
+          | under pk =>
+            simp only at hv
+            split at hv
+            · cases hv
+            next s hs =>
+              cases pk with
+              | none => simp [verifyUnder] at hv
+              | some pk =>
+                cases s with
+                | junk n => simp [verifyUnder, Sig.verify] at hv
+                | signed k d m => exact ⟨pk, st, k, d, m, rfl, hst, hs⟩
 
 end RedirectSig
